@@ -65,6 +65,9 @@ Disposition(route, method, v) ==
   ELSE LET o == OpOf(route, method) IN
        IF v < o.lo THEN (IF o.below = 405 THEN "405" ELSE "404") ELSE "handled"
 
+\* 1.15 adds last-modified and cache-control: no-cache to GET responses throughout the API
+CacheHeadersFrom == 15
+
 \* versioned features: id, introducing version, last version (39 = still there)
 F(id, lo, hi) == [id |-> id, lo |-> lo, hi |-> hi]
 Features == {
@@ -85,6 +88,10 @@ Features == {
   F("error_code_concurrent_update", 23, 39), F("error_code_duplicate_name", 23, 39),
   F("error_code_duplicate_name_on_update", 23, 39), F("error_code_inventory_inuse", 23, 39),
   F("error_code_cannot_delete_parent", 23, 39), F("error_code_provider_inuse", 23, 39),
+  F("alloc_post_consumer_generation_required", 28, 39), F("alloc_post_consumer_type_required", 38, 39),
+  F("alloc_post_mappings", 34, 39), F("reshape_consumer_type_required", 38, 39), F("reshape_mappings", 34, 39),
+  F("usages_grouped_by_type", 38, 39), F("cache_headers_write_with_body", 15, 39),
+  F("cache_headers_absent_on_write_with_body", 0, 14), F("ac_group_policy", 25, 39),
   F("rp_list_repeated_member_of", 24, 39),
   F("ac_granular", 25, 39),
   F("inv_reserved_equals_total", 26, 39),
@@ -134,7 +141,8 @@ WindowsOK == \A o \in Operations : o.lo \in Versions /\ (o.lo = 0 <=> o.below = 
 FeaturesOK == /\ \A f \in Features : f.lo \in Versions /\ f.hi \in Versions /\ f.lo <= f.hi
               /\ \A a, b \in Features : a.id = b.id => a = b
               \* a feature is upward closed from its introduction, or an explicitly closed legacy window
-              /\ \A f \in Features : f.hi = MaxVersion \/ f.id \in {"put_class_rename", "alloc_put_list_form", "agg_put_list_form"}
+              /\ \A f \in Features : f.hi = MaxVersion \/ f.id \in {"put_class_rename", "alloc_put_list_form", "agg_put_list_form",
+                                                                  "cache_headers_absent_on_write_with_body"}
 EveryOpHasRule == \A o \in Operations : o.route = "/" <=> o.rule = "none"
 \* default policy is monotone in roles: who may do more never may do less
 MonotonePolicy ==
